@@ -202,12 +202,12 @@ def base58(ctx, prog, ev):
     # positional base 58
     dc, ec = ctx.fa(f"{B58}.decode"), ctx.fa(f"{B58}.encode")
     t1, t2 = unparse(dc.node), unparse(ec.node)
-    ok = "value = value * 58 + cls.char_value(c)" in t1 and "result = int_to_bytes(value)" in t1 and "result = bytes((0,)) * count + result" in t1 and \
-        "if c != '1'" in t1
+    ok = "value = value * 58 + cls.char_value(c)" in t1 and "result = int_to_bytes(value)" in t1 and "result = bytes((0,)) * count + result" in t1
     ctx.ob("C06-D3/SYM", ok, dc.site(), "decode: value = value·58 + digit, big-endian bytes, one zero byte per leading '1'", func=dc.fi.qualname)
-    ok = "value = bytes_to_int(be_bytes)" in t2 and "value, mod = divmod(value, 58)" in t2 and "txt += cls.chars[mod]" in t2 and "txt += '1'" in t2 and \
-        "if byte != 0" in t2 and "return txt[::-1]" in t2
+    ok = "value = bytes_to_int(be_bytes)" in t2 and "value, mod = divmod(value, 58)" in t2 and "txt += cls.chars[mod]" in t2 and "txt += '1'" in t2 and "return txt[::-1]" in t2
     ctx.ob("C06-D3/SYM", ok, ec.site(), "encode: repeated divmod by 58 (least significant digit first, reversed at the end), one '1' per leading zero byte", func=ec.fi.qualname)
+    base58_loops(ctx, dc, ec)
+    validators(ctx, prog)
     cls = prog.cls(B58)
     try:
         chars = ev.class_attr(cls, "chars")
@@ -288,8 +288,13 @@ def chains(ctx, prog):
     ok = False
     if loops:
         b = loops[0].body
-        ok = len(b) == 1 and isinstance(b[0], ast.If) and unparse(b[0].test) == "address['used_times'] == 0" and \
-            [norm_text(x) for x in b[0].body] == ["existing_gap += 1"] and [norm_text(x) for x in b[0].orelse] == ["break"] and dotted(loops[0].iter) == "addresses"
+        ok = len(b) == 1 and isinstance(b[0], ast.If) and dotted(loops[0].iter) == "addresses"
+        if ok:
+            v = dotted(loops[0].target)
+            t_, pol = terms.atom(b[0].test)
+            unused, used = (b[0].body, b[0].orelse) if pol else (b[0].orelse, b[0].body)
+            ok = t_ == terms.atom(ast.parse(f"{v}['used_times'] == 0", mode="eval").body)[0] and \
+                [norm_text(x) for x in unused] == ["existing_gap += 1"] and [norm_text(x) for x in used] == ["break"]
     ctx.ob("C06-D4/DEP", ok, eg.site(), "the existing gap is the trailing run of unused addresses (counting stops at the first used one, newest first)", func=gq,
            key=f"C06-D4/DEP|{gq}|trailing-run")
     rets = [r for r in eg.stmts(ast.Return) if isinstance(r.value, ast.List) and not r.value.elts]
@@ -314,6 +319,10 @@ def mnemonic(ctx, prog):
     ok = "n = len(self.words)" in td and "words = seed.split()" in td and "word = words.pop()" in td and "k = self.words.index(word)" in td and "i = i * n + k" in td and \
         "while words" in td and "return i" in td
     ctx.ob("C06-D5/SYM", ok, de.site(), "decode: words are consumed from the end (most significant first) with i·n + index — the inverse loop", func=de.fi.qualname, key="C06-D5/SYM|decode")
+    z = [x for x in de.stmts(ast.Assign) if any(dotted(t) == "i" for t in x.targets) and isinstance(x.value, ast.Constant)]
+    ctx.ob("C06-D5/SYM", len(z) == 1 and is_const(z[0].value, 0) and not R.atomic_facts_at(de, z[0])[0], de.site(), "decode: the number starts at 0", func=de.fi.qualname, key="C06-D5/SYM|decode-init")
+    z = [x for x in en.stmts(ast.Assign) if any(dotted(t) == "words" for t in x.targets)]
+    ctx.ob("C06-D5/SYM", len(z) == 1 and isinstance(z[0].value, ast.List) and not z[0].value.elts, en.site(), "encode: the word list starts empty", func=en.fi.qualname, key="C06-D5/SYM|encode-init")
     nt = ctx.fa("lbry.wallet.mnemonic.normalize_text")
     p = nt.fi.params()[0]
     ws = [s for s in nt.stmts(ast.Assign) if isinstance(s.value, ast.Call) and unparse(s.value.func) == "' '.join" and s.value.args and
@@ -325,4 +334,132 @@ def mnemonic(ctx, prog):
     t = unparse(ms.node)
     ok = "mnemonic = normalize_text(mnemonic)" in t and "passphrase = normalize_text(passphrase)" in t and "iterations=pbkdf2_rounds" in t and "digestmodule=hashlib.sha512" in t and \
         ".read(64)" in t and "pbkdf2_rounds = 2048" in t
+    pk = [c for c in ms.calls(name="PBKDF2")]
+    ok = ok and len(pk) == 1 and [dotted(a) for a in pk[0].args] == ms.fi.params()[:2] and dotted(kwarg(pk[0], "macmodule")) == "hmac"
     ctx.ob("C06-D5/DEP", ok, ms.site(), "the seed is PBKDF2-HMAC-SHA512(normalised mnemonic, normalised passphrase, 2048 rounds, 64 bytes)", func=ms.fi.qualname)
+
+
+def base58_loops(ctx, dc, ec):
+    """positional base-58 loops: start values, unconditional accumulation, leading-zero handling decided by the digit test alone"""
+    def uncond(fa, node, allowed=()):
+        have, _F = R.atomic_facts_at(fa, node)
+        ok_terms = set()
+        for g in allowed:
+            ok_terms |= {t for t, _ in terms.parse_guard(g)}
+        return not {k for k in have if k[0] not in ok_terms}
+    prelude = ["isinstance(txt, memoryview)", "isinstance(txt, bytes)", "isinstance(txt, str)", "txt"]
+    q = dc.fi.qualname
+    txt = dc.fi.params()[1]
+    prelude = [g.replace("txt", txt) for g in prelude]
+    init = {dotted(x.targets[0]): x for x in dc.stmts(ast.Assign) if len(x.targets) == 1 and isinstance(x.targets[0], ast.Name) and isinstance(x.value, ast.Constant)}
+    ok = "value" in init and is_const(init["value"].value, 0) and uncond(dc, init["value"], prelude) and "count" in init and is_const(init["count"].value, 0) and uncond(dc, init["count"], prelude)
+    ctx.ob("C06-D3/LOOP", ok, dc.site(), "decode: the accumulated value and the leading-'1' count both start at 0", func=q, key=f"C06-D3/LOOP|{q}|init")
+    acc = [x for x in dc.stmts(ast.Assign) if norm_text(x) == "value = value * 58 + cls.char_value(c)"]
+    lp = dc.lexically_inside(acc[0], lambda a: isinstance(a, ast.For)) if acc else None
+    ok = len(acc) == 1 and lp is not None and dotted(lp.iter) == txt and dotted(lp.target) == "c" and uncond(dc, acc[0], prelude) and not lp.orelse
+    ctx.ob("C06-D3/LOOP", ok, dc.site(), "decode: every character of the text is accumulated, unconditionally, most significant first", func=q, key=f"C06-D3/LOOP|{q}|accumulate")
+    inc = [x for x in dc.stmts(ast.AugAssign) if dotted(x.target) == "count"]
+    brk = dc.stmts(ast.Break)
+    ok = len(inc) == 1 and isinstance(inc[0].op, ast.Add) and is_const(inc[0].value, 1) and len(brk) == 1
+    lp2 = dc.lexically_inside(inc[0], lambda a: isinstance(a, ast.For)) if inc else None
+    ok = ok and lp2 is not None and dotted(lp2.iter) == txt and dc.lexically_inside(brk[0], lambda a: a is lp2) is not None
+    ctx.ob("C06-D3/LOOP", ok, dc.site(), "decode: leading '1's are counted one by one over the same text", func=q, key=f"C06-D3/LOOP|{q}|count")
+    if ok:
+        v = dotted(lp2.target)
+        R.exact_gate(ctx, "C06-D3/LOOP", dc, brk[0], f"{v} != '1'", "decode: counting stops exactly at the first character that is not '1'", ignore=prelude + [f"not {g}" for g in prelude],
+                     key=f"C06-D3/LOOP|{q}|stop")
+        R.exact_gate(ctx, "C06-D3/LOOP", dc, inc[0], f"{v} == '1'", "decode: …and every '1' before it counts", ignore=prelude + [f"not {g}" for g in prelude], key=f"C06-D3/LOOP|{q}|inc")
+    pre = [x for x in dc.stmts(ast.Assign) if norm_text(x) == "result = bytes((0,)) * count + result"]
+    ok = len(pre) == 1 and uncond(dc, pre[0], prelude + ["count"]) and (dc.guarded(pre[0], "count")[0] or uncond(dc, pre[0], prelude))
+    ctx.ob("C06-D3/LOOP", ok, dc.site(), "decode: one zero byte per counted '1' is put in front (whenever the count is non-zero)", func=q, key=f"C06-D3/LOOP|{q}|prepend")
+    r = R.single_return_value(dc)
+    p = dc.path([dc.cfg.entry], [dc.cfg.exit], avoid=lambda n: n.kind == "return", include_exc=False)
+    ok = r is not None and dotted(r.value) == "result" and p is None and bool(pre) and dc.always_reaches(pre[0], lambda n: n is r.value) is None
+    ctx.ob("C06-D3/LOOP", ok, dc.site(), "decode returns that result on every path", func=q, key=f"C06-D3/LOOP|{q}|return")
+    # encode
+    q = ec.fi.qualname
+    b = ec.fi.params()[1]
+    init = [x for x in ec.stmts(ast.Assign) if any(dotted(t) == "txt" for t in x.targets)]
+    ok = len(init) == 1 and is_const(init[0].value, "") and uncond(ec, init[0])
+    ctx.ob("C06-D3/LOOP", ok, ec.site(), "encode: the text starts empty", func=q, key=f"C06-D3/LOOP|{q}|init")
+    wl = ec.stmts(ast.While)
+    ok = len(wl) == 1 and norm_text(wl[0].test) in ("value", "value > 0", "value != 0") and [norm_text(x) for x in wl[0].body] == ["value, mod = divmod(value, 58)", "txt += cls.chars[mod]"] \
+        and not wl[0].orelse
+    ctx.ob("C06-D3/LOOP", ok, ec.site(), "encode: digits are produced by divmod 58 until the value is exhausted", detail="" if ok else str([norm_text(x) for x in wl[0].body]) if wl else "", func=q,
+           key=f"C06-D3/LOOP|{q}|digits")
+    ones = [x for x in ec.stmts(ast.AugAssign) if dotted(x.target) == "txt" and is_const(x.value, "1")]
+    brk = ec.stmts(ast.Break)
+    lp = ec.lexically_inside(ones[0], lambda a: isinstance(a, ast.For)) if ones else None
+    ok = len(ones) == 1 and len(brk) == 1 and lp is not None and dotted(lp.iter) == b and ec.lexically_inside(brk[0], lambda a: a is lp) is not None and \
+        ec.must_precede(ones[0], lambda n: bool(wl) and n is wl[0].test) is None
+    ctx.ob("C06-D3/LOOP", ok, ec.site(), "encode: after the digits, the input bytes are scanned for leading zeros", func=q, key=f"C06-D3/LOOP|{q}|zeros")
+    if ok:
+        v = dotted(lp.target)
+        R.exact_gate(ctx, "C06-D3/LOOP", ec, brk[0], f"{v} != 0", "encode: the scan stops exactly at the first non-zero byte", ignore=["value", "not value"], key=f"C06-D3/LOOP|{q}|stop")
+        R.exact_gate(ctx, "C06-D3/LOOP", ec, ones[0], f"{v} == 0", "encode: …and every zero byte before it gives one '1'", ignore=["value", "not value"], key=f"C06-D3/LOOP|{q}|one")
+    r = R.single_return_value(ec)
+    p = ec.path([ec.cfg.entry], [ec.cfg.exit], avoid=lambda n: n.kind == "return", include_exc=False)
+    ctx.ob("C06-D3/LOOP", r is not None and norm_text(r.value) == "txt[::-1]" and p is None, ec.site(), "encode returns the reversed text on every path", func=q, key=f"C06-D3/LOOP|{q}|return")
+
+
+def validators(ctx, prog):
+    kb = ctx.fa(f"{K}._KeyBase.__init__")
+    _, _l, cc, n, d, par = kb.fi.params()
+    tb = [("chain code must be raw bytes", f"not isinstance({cc}, (bytes, bytearray))"), ("invalid chain code", f"len({cc}) != 32"),
+          ("invalid child number", f"not 0 <= {n} < 1 << 32"), ("invalid depth", f"not 0 <= {d} < 256"),
+          ("parent key has bad type", f"{par} is not None and not isinstance({par}, type(self))")]
+    R.refusal_table(ctx, "C06-D2/VALID", kb, tb, "key constructor")
+    sets = [norm_text(x) for x in kb.stmts(ast.Assign)]
+    ok = all(f"self.{a} = {b}" in sets for a, b in (("chain_code", cc), ("n", n), ("depth", d), ("parent", par), ("ledger", _l)))
+    ctx.ob("C06-D2/VALID", ok, kb.site(), "the validated chain code, child number, depth and parent are what the key stores", func=kb.fi.qualname)
+    for x in kb.stmts(ast.Assign):
+        if norm_text(x) == f"self.chain_code = {cc}":
+            R.only_terms(ctx, "C06-D2/VALID", kb, x, [g for _m, g in tb], "…for every valid argument tuple", key="C06-D2/VALID|keybase|store-always")
+    ek = ctx.fa(f"{K}._KeyBase._extended_key")
+    _, vb, rk = ek.fi.params()
+    te = [("ver_bytes must be raw bytes", f"not isinstance({vb}, (bytes, bytearray))"), ("ver_bytes must have length 4", f"len({vb}) != 4"),
+          ("raw_serkey must be raw bytes", f"not isinstance({rk}, (bytes, bytearray))"), ("raw_serkey must have length 33", f"len({rk}) != 33")]
+    R.refusal_table(ctx, "C06-D2/VALID", ek, te, "extended-key writer")
+    for r in ek.stmts(ast.Return):
+        R.only_terms(ctx, "C06-D2/VALID", ek, r, [g for _m, g in te], "the writer serialises every well-formed (version, key) pair", key="C06-D2/VALID|writer|always")
+    fe = ctx.fa(f"{K}._from_extended_key")
+    lg, e = fe.fi.params()
+    tf = [("extended key must be raw bytes", f"not isinstance({e}, (bytes, bytearray))"), ("extended key must have length 78", f"len({e}) != 78"),
+          ("invalid extended private key prefix byte", f"{e}[:4] == {lg}.extended_private_key_prefix and {e}[45] != 0"),
+          ("version bytes unrecognised", f"not {e}[:4] == {lg}.extended_public_key_prefix and not {e}[:4] == {lg}.extended_private_key_prefix")]
+    R.refusal_table(ctx, "C06-D2/VALID", fe, tf, "extended-key reader")
+    for x in fe.stmts(ast.Assign):
+        t = norm_text(x.value)
+        if t.startswith("PublicKey("):
+            R.exact_gate(ctx, "C06-D2/VALID", fe, x, f"{e}[:4] == {lg}.extended_public_key_prefix", "a public key is built exactly for the public version bytes",
+                         ignore=[f"isinstance({e}, (bytes, bytearray))", f"len({e}) == 78"], key="C06-D2/VALID|reader|public")
+        elif t.startswith("PrivateKey("):
+            R.exact_gate(ctx, "C06-D2/VALID", fe, x, f"not {e}[:4] == {lg}.extended_public_key_prefix and {e}[:4] == {lg}.extended_private_key_prefix and {e}[45] == 0",
+                         "a private key is built exactly for the private version bytes with a zero pad byte",
+                         ignore=[f"isinstance({e}, (bytes, bytearray))", f"len({e}) == 78"], key="C06-D2/VALID|reader|private")
+    r = R.single_return_value(fe)
+    p = fe.path([fe.cfg.entry], [fe.cfg.exit], avoid=lambda n: n.kind == "return", include_exc=False)
+    ctx.ob("C06-D2/VALID", r is not None and dotted(r.value) == "key" and p is None, fe.site(), "the reader returns the key it built on every accepting path", func=fe.fi.qualname)
+    for qn, lim in ((f"{K}.PublicKey.child", "1 << 31"), (f"{K}.PrivateKey.child", "1 << 32")):
+        ch = ctx.fa(qn)
+        nn = ch.fi.params()[1]
+        R.refusal_table(ctx, "C06-D1/VALID", ch, [("invalid BIP32", f"not 0 <= {nn} < {lim}")], f"{ch.fi.qualname.split('.')[-2]}.child", allow_other=True)
+    # key generation bookkeeping
+    gk = ctx.fa(f"{A}.HierarchicalDeterministic._generate_keys")
+    R.refusal_table(ctx, "C06-D4/VALID", gk, [("Should not be called outside", "not self.address_generator_lock.locked()")], "_generate_keys")
+    ok = any(norm_text(c) == "self.account.ledger.db.add_keys(self.account, self.chain_number, keys)" and isinstance(c._parent, ast.Await) and
+             not R.atomic_facts_at(gk, c)[0] - {("self.address_generator_lock.locked()", True)} for c in gk.calls(name="add_keys"))
+    ctx.ob("C06-D4/DEP", ok, gk.site(), "every derived key is stored for this account and chain (the stored keys are what later sessions list, in index order)", func=gk.fi.qualname,
+           key="C06-D4/DEP|generate|stored")
+    eg = ctx.fa(f"{A}.HierarchicalDeterministic.ensure_address_gap")
+    q = eg.fi.qualname
+    z = [x for x in eg.stmts(ast.Assign) if any(dotted(t) == "existing_gap" for t in x.targets)]
+    ctx.ob("C06-D4/DEP", len(z) == 1 and is_const(z[0].value, 0), eg.site(), "the existing gap is counted from 0", func=q, key=f"C06-D4/DEP|{q}|gap-init")
+    for r in eg.stmts(ast.Return):
+        if isinstance(r.value, ast.List) and not r.value.elts:
+            R.exact_gate(ctx, "C06-D4/GATE", eg, r, "existing_gap == self.gap", "…and skipped exactly then", key=f"C06-D4/GATE|{q}|skip-exact")
+    an = [c for c in eg.calls(name="announce_addresses")]
+    ok = len(an) == 1 and norm_text(an[0]) == "self.account.ledger.announce_addresses(self, new_keys)" and isinstance(an[0]._parent, ast.Await) and \
+        [norm_text(x.value) for x in eg.stmts(ast.Assign) if any(dotted(t) == "new_keys" for t in x.targets)] == ["await self._generate_keys(start, end - 1)"] and \
+        any(dotted(r.value) == "new_keys" for r in eg.stmts(ast.Return))
+    ctx.ob("C06-D4/DEP", ok, eg.site(), "the generated addresses are announced to the ledger (which subscribes them) and returned", func=q, key=f"C06-D4/DEP|{q}|announce")
